@@ -76,7 +76,7 @@ def universe() -> List[Tuple[str, V]]:
         ("Tuple[()]", gen("Tuple")), ("Tuple[int, other]", gen("Tuple", INT, Th)), ("Type[other]", gen("Type", Th)), ("Type[own nested]", gen("Type", I)),
         ("Iterator[Any]", gen("Iterator", ANY)), ("Generator[int, None, other]", gen("Generator", INT, NONE_T, Th)),
         ("DefaultDict[str, List[other]]", gen("DefaultDict", STR, gen("List", Th))), ("other nested class", Dp), ("_io class", IO),
-        ("Dict[str, Set[other]]", gen("Dict", STR, gen("Set", Th))), ("Callable[[int], other]", gen("Callable", K((INT,)), Th)),
+        ("Dict[str, Set[other]]", gen("Dict", STR, gen("Set", Th))), ("Callable[[int], other]", gen("Callable", K((INT,)), Th)), ("Callable[[other, own], None] (a source annotation)", gen("Callable", K((Th, U_)), NONE_T)),
         ("class named like NoneType", N), ("List[class named like NoneType]", gen("List", N)),
         ("class of module mytyping", X), ("List[class of module mytyping]", gen("List", X)),
         ("classes of utils and my.utils", gen("Dict", A, B)), ("same-named classes of utils and my.utils", gen("Tuple", A, A2)),
